@@ -234,6 +234,30 @@ def run(ck):
     _growth_rule(ck, m, fn, buf, "R3", store=True)
     # ---------------- R5 ----------------
     _growth_rule(ck, m, meths["__getitem__"], buf, "R5", store=False)
+    # every value returned from the slice branch is the slice of ONE buffer (the live array, or its padded copy): padding
+    # appended to the sliced result is counted from the length, not from the slice start, and is wrong whenever the start
+    # lies outside [0, len]
+    fn = meths["__getitem__"]
+    pn = fn.args.args[1].arg
+    nret = 0
+    for br in [n for n in walk_body(fn) if isinstance(n, ast.If) and norm(n.test) in ("isinstance(%s, slice)" % pn, "type(%s) is slice" % pn)]:
+        res = Resolver(fn)
+        for r_ in walk_local(ast.Module(body=br.body, type_ignores=[])):
+            if not isinstance(r_, ast.Return) or r_.value is None:
+                continue
+            nret += 1
+            v = res.expand_node(r_.value)
+            while isinstance(v, ast.Call) and callee_attr(v) in ("array_tobytes", "bytes", "tobytes", "tostring") and (v.args or isinstance(v.func, ast.Attribute)):
+                v = v.args[0] if v.args else v.func.value
+            ok = isinstance(v, ast.Subscript) and isinstance(v.value, ast.Name) and norm(v.slice) == pn
+            if not ok and "start" in norm(res.expand_node(r_.value)):
+                # a padding amount computed from the slice start can be right: not decided here
+                ck.undet("R5", "StrPatchwork.__getitem__:slice-of-one-buffer", "padding computed from the slice start: `%s`" % norm(r_.value)[:80])
+                ok = True
+            ck.ob("R5", "StrPatchwork.__getitem__:slice-of-one-buffer", ok, m.where(r_),
+                  "the slice branch returns `%s`: not the slice of a single (padded) buffer; padding glued to the sliced bytes is "
+                  "wrong for a start beyond the end or a negative start" % norm(r_.value)[:80])
+    ck.need(nret >= 1, "StrPatchwork.__getitem__: no return in the slice branch")
 
 
 def _growth_rule(ck, m, fn, buf, rid, store):
